@@ -11,13 +11,16 @@ import DracoProofs.SeqCounts
         `MeshSequentialEncoder::EncodeConnectivity` (uncompressed indices, all four index
         widths u8 / u16 / varint / u32) returns exactly `(num_points, faces)` and stops at the end
         of what was written;  `seq_counts_mesh_connectivity_reported`: = the reported counts.
-    * `seq_counts_mesh_stream`, `seq_counts_pc_stream`  the same at the level of
-        `decodeGeometry` (header + connectivity / int32 num_points, no metadata): every
+    * `seq_counts_mesh_stream`, `seq_counts_pc_stream`  the same at the level of the complete
+        decoder `decodeGeometry` (header + connectivity / int32 num_points, no metadata): every
         successful decode of such a stream yields the reported counts, whatever attribute data
         follows and whatever the decoder options are.
-    * `seq_counts`  every successful `decodeGeometry`: each attribute has exactly one value
-        per decoded point (identity map), faces refer to decoded points, point clouds have no
-        faces.  `seq_counts_independent_of_skip`: counts do not depend on the decoder options.
+    * `seq_counts`  every successful `decodeGeometry` of a sequential stream (`IsSeqStream`:
+        the header announces encoder method 0; Edgebreaker attributes carry explicit maps):
+        each attribute has exactly one value per decoded point (identity map), faces refer to
+        decoded points, point clouds have no faces.  `seq_counts_independent_of_skip`: counts
+        do not depend on the decoder options.  `…_seq`: the same for `decodeGeometrySeq` (the
+        dispatcher with the Edgebreaker / kd-tree bodies rejected) on every stream.
     Not covered in part 1: `compress_connectivity` (method byte 0, entropy coded indices),
     metadata in front of the connectivity, bitstreams < 2.2.
 
@@ -25,14 +28,19 @@ import DracoProofs.SeqCounts
   `MeshEdgebreakerEncoder::ComputeNumberOfEncodedPoints` against the number of points
   `MeshEdgebreakerDecoderImpl::AssignPointsToCorners` creates, on an abstract vertex fan
   (`DracoModel/EbCounts.lean`):
-    * `eb_point_count_fan`  equal under H1 (point ids are deduplicated: consecutive corners with
-        different point ids differ in some attribute corner table) and H2 (the decoder's seam
-        flags are sound);  closed forms `dec_points_interior`, `dec_points_boundary`,
-        `enc_seams_eq_changes`;  `eb_point_count_mesh` sums over the vertices.
-    * `eb_point_count_fan_nondedup_witness`, `…_boundary_witness`, `eb_point_count_fan_false`:
-        without H1 the property is FALSE of the code as written (replayed on the real library:
-        a closed 4-triangle fan whose centre is referenced through two point ids with identical
-        attribute values: the encoder reports 6 points, the decoder produces 5).
+    * `eb_point_count_fan`  equal for the encoder as written after the `fix:` commit (seams are
+        found from the attribute corner tables only) under H2 (the decoder's seam flags are
+        sound) — no hypothesis on point ids;  closed forms `dec_points_interior`,
+        `dec_points_boundary`, `enc_seams_eq_changes`;  `eb_point_count_mesh` sums over vertices.
+    * history (`encPointsPreFix`: formula before fix: commit 49d6567, which also counted a seam
+        whenever the point id changed): `eb_point_count_fan_prefix_agrees` — under H1 (point ids
+        are deduplicated: consecutive corners with different point ids differ in some attribute
+        corner table) the old formula equals the repaired one, hence the decoder's count;
+        `eb_point_count_fan_nondedup_witness`, `…_boundary_witness`,
+        `eb_point_count_fan_prefix_false`: without H1 the property was FALSE of the old code
+        (replayed on the real library: a closed 4-triangle fan whose centre is referenced
+        through two point ids with identical attribute values: the old encoder reported 6
+        points, the decoder produces 5).
     * `eb_point_count_fan_unsound_flag_witness`: H2 cannot be dropped in the abstract model.
     Not modelled: how the fan is obtained from the corner table (`LeftMostCorner`,
     `SwingRight`, `IsOnBoundary(v)` = `is_vert_hole_[v]` = ¬closed), the position-only
@@ -95,8 +103,9 @@ example : ∃ r s', decodeSeqConnectivity
     rfl rfl (by decide) (by decide) (by decide)
 
 /-- Whole mesh stream (`EncodeHeader`, no metadata, `EncodeConnectivity`, then arbitrary
-    attribute data `tail`): every successful decode, under every decoder option set, yields a
-    mesh with exactly the reported number of points and faces (indeed the same faces). -/
+    attribute data `tail`) through the complete decoder: every successful decode, under every
+    decoder option set, yields a mesh with exactly the reported number of points and faces
+    (indeed the same faces). -/
 theorem seq_counts_mesh_stream (opts : DecOpts) (g : Geometry) (s s' : DSt) (tail : Bytes)
     (r : DecodeResult)
     (hrest : s.rest = encodeSeqHeader true ++ (encodeSeqConnectivityRaw g.numPoints g.faces ++ tail))
@@ -121,8 +130,9 @@ example : (decodeGeometry {} { rest := encodeSeqHeader true ++
     (by decide) (by decide) (by decide) h).2.2⟩
 
 /-- Whole point cloud stream (`EncodeHeader`, no metadata,
-    `PointCloudSequentialEncoder::EncodeGeometryData`, then arbitrary attribute data): every
-    successful decode yields a point cloud with the reported number of points and no faces. -/
+    `PointCloudSequentialEncoder::EncodeGeometryData`, then arbitrary attribute data) through the
+    complete decoder: every successful decode yields a point cloud with the reported number of
+    points and no faces. -/
 theorem seq_counts_pc_stream (opts : DecOpts) (g : Geometry) (s s' : DSt) (tail : Bytes)
     (r : DecodeResult) (hpc : g.faces = [])
     (hrest : s.rest = encodeSeqHeader false ++ (encodePcGeometryData g.numPoints ++ tail))
@@ -144,40 +154,88 @@ example : (decodeGeometry {} { rest := encodeSeqHeader false ++
     { isMesh := false, numPoints := 2, faces := [], atts := [] } _ s'
     [1, 1, 0, 2, 1, 0, 0, 0, 7, 9] r rfl rfl (by decide) h).2.2⟩
 
-/-- Every successful `decodeGeometry` (any stream, any options): (i) each attribute has one
+/-- Every successful `decodeGeometrySeq` (any stream, any options): (i) each attribute has one
     value per decoded point, in stream order (`numValues = numPoints`, identity map); (ii) all
     face indices refer to decoded points; (iii) a point cloud has no faces. So the decoder
     returns exactly the number of points it read from the stream, for every attribute. -/
-theorem seq_counts (opts : DecOpts) (s s' : DSt) (r : DecodeResult)
+theorem seq_counts_seq (opts : DecOpts) (s s' : DSt) (r : DecodeResult)
+    (hdec : decodeGeometrySeq opts s = (some r, s')) :
+    (∀ a ∈ r.geometry.atts, a.numValues = r.geometry.numPoints ∧ a.map = none) ∧
+    r.geometry.faces.all (fun (a, b, c) =>
+      decide (a < r.geometry.numPoints) && decide (b < r.geometry.numPoints) &&
+        decide (c < r.geometry.numPoints)) = true ∧
+    (r.geometry.isMesh = false → r.geometry.faces = []) := by
+  obtain ⟨h1, h2, h3⟩ := decodeGeometrySeq_post opts s r s' hdec
+  exact ⟨h1, facesBelow_all _ _ h2, h3⟩
+
+example : (decodeGeometrySeq {} { rest := encodeSeqHeader false ++
+        (encodePcGeometryData 2 ++ [1, 1, 0, 2, 1, 0, 0, 0, 7, 9]) }).1.isSome = true ∧
+    ∀ r s', decodeGeometrySeq {} { rest := encodeSeqHeader false ++
+        (encodePcGeometryData 2 ++ [1, 1, 0, 2, 1, 0, 0, 0, 7, 9]) } = (some r, s') →
+      (∀ a ∈ r.geometry.atts, a.numValues = r.geometry.numPoints ∧ a.map = none) :=
+  ⟨by decide +kernel, fun r s' h => (seq_counts_seq {} _ s' r h).1⟩
+
+/-- The same for the complete decoder on every sequential stream (header readable, encoder
+    method byte 0). Edgebreaker / kd-tree streams are excluded: their attributes carry explicit
+    point-to-value maps. -/
+theorem seq_counts (opts : DecOpts) (s s' : DSt) (r : DecodeResult) (hs : IsSeqStream s)
     (hdec : decodeGeometry opts s = (some r, s')) :
     (∀ a ∈ r.geometry.atts, a.numValues = r.geometry.numPoints ∧ a.map = none) ∧
     r.geometry.faces.all (fun (a, b, c) =>
       decide (a < r.geometry.numPoints) && decide (b < r.geometry.numPoints) &&
         decide (c < r.geometry.numPoints)) = true ∧
     (r.geometry.isMesh = false → r.geometry.faces = []) := by
-  obtain ⟨h1, h2, h3⟩ := decodeGeometry_post opts s r s' hdec
+  obtain ⟨h1, h2, h3⟩ := decodeGeometry_post opts s hs r s' hdec
   exact ⟨h1, facesBelow_all _ _ h2, h3⟩
 
-/-- non-vacuity: the point cloud stream from above decodes, its attribute has 2 values -/
-example : (decodeGeometry {} { rest := encodeSeqHeader false ++
+/-- non-vacuity: the point cloud stream from above is sequential and decodes, its attribute
+    has 2 values -/
+example : IsSeqStream { rest := encodeSeqHeader false ++
+        (encodePcGeometryData 2 ++ [1, 1, 0, 2, 1, 0, 0, 0, 7, 9]) } ∧
+    (decodeGeometry {} { rest := encodeSeqHeader false ++
         (encodePcGeometryData 2 ++ [1, 1, 0, 2, 1, 0, 0, 0, 7, 9]) }).1.map
       (fun r => r.geometry.atts.map (·.numValues)) = some [2] ∧
     ∀ r s', decodeGeometry {} { rest := encodeSeqHeader false ++
         (encodePcGeometryData 2 ++ [1, 1, 0, 2, 1, 0, 0, 0, 7, 9]) } = (some r, s') →
       (∀ a ∈ r.geometry.atts, a.numValues = r.geometry.numPoints ∧ a.map = none) :=
-  ⟨by decide +kernel, fun r s' h => (seq_counts {} _ s' r h).1⟩
+  ⟨isSeqStream_of_header _ false _ rfl, by decide +kernel,
+    fun r s' h => (seq_counts {} _ s' r (isSeqStream_of_header _ false _ rfl) h).1⟩
 
-/-- two successful decodes of one stream under different option sets (`skip` lists) yield the
-    same kind of geometry, number of points, faces and number of attributes -/
+/-- two successful `decodeGeometrySeq` runs on one stream under different option sets (`skip`
+    lists) yield the same kind of geometry, number of points, faces and number of attributes -/
+theorem seq_counts_independent_of_skip_seq (o1 o2 : DecOpts) (s s1 s2 : DSt)
+    (r1 r2 : DecodeResult)
+    (h1 : decodeGeometrySeq o1 s = (some r1, s1)) (h2 : decodeGeometrySeq o2 s = (some r2, s2)) :
+    r1.geometry.isMesh = r2.geometry.isMesh ∧ r1.geometry.numPoints = r2.geometry.numPoints ∧
+      r1.geometry.faces = r2.geometry.faces ∧
+      r1.geometry.atts.length = r2.geometry.atts.length :=
+  decodeGeometrySeq_opts_indep o1 o2 s r1 s1 r2 s2 h1 h2
+
+example : (decodeGeometrySeq {} { rest := encodeSeqHeader false ++
+        (encodePcGeometryData 2 ++ [1, 1, 1, 1, 1, 0, 0, 1, 254, 0, 1, 14, 18]) }).1.isSome = true ∧
+    (decodeGeometrySeq { skip := [1] } { rest := encodeSeqHeader false ++
+        (encodePcGeometryData 2 ++ [1, 1, 1, 1, 1, 0, 0, 1, 254, 0, 1, 14, 18]) }).1.isSome = true ∧
+    ∀ r1 s1 r2 s2,
+      decodeGeometrySeq {} { rest := encodeSeqHeader false ++
+        (encodePcGeometryData 2 ++ [1, 1, 1, 1, 1, 0, 0, 1, 254, 0, 1, 14, 18]) } = (some r1, s1) →
+      decodeGeometrySeq { skip := [1] } { rest := encodeSeqHeader false ++
+        (encodePcGeometryData 2 ++ [1, 1, 1, 1, 1, 0, 0, 1, 254, 0, 1, 14, 18]) } = (some r2, s2) →
+      r1.geometry.numPoints = r2.geometry.numPoints :=
+  ⟨by decide +kernel, by decide +kernel, fun r1 s1 r2 s2 h1 h2 =>
+    (seq_counts_independent_of_skip_seq {} { skip := [1] } _ s1 s2 r1 r2 h1 h2).2.1⟩
+
+/-- the same for the complete decoder on every sequential stream -/
 theorem seq_counts_independent_of_skip (o1 o2 : DecOpts) (s s1 s2 : DSt) (r1 r2 : DecodeResult)
+    (hs : IsSeqStream s)
     (h1 : decodeGeometry o1 s = (some r1, s1)) (h2 : decodeGeometry o2 s = (some r2, s2)) :
     r1.geometry.isMesh = r2.geometry.isMesh ∧ r1.geometry.numPoints = r2.geometry.numPoints ∧
       r1.geometry.faces = r2.geometry.faces ∧
       r1.geometry.atts.length = r2.geometry.atts.length :=
-  decodeGeometry_opts_indep o1 o2 s r1 s1 r2 s2 h1 h2
+  decodeGeometry_opts_indep o1 o2 s hs r1 s1 r2 s2 h1 h2
 
-/-- non-vacuity: a stream with one INT8 attribute (type 1, integer decoder) decoded with and
-    without skipping its transform: the attributes differ (INT8 `[7, 9]` vs INT32), the counts agree -/
+/-- non-vacuity: a sequential stream with one INT8 attribute (type 1, integer decoder) decoded
+    with and without skipping its transform: the attributes differ (INT8 `[7, 9]` vs INT32), the
+    counts agree -/
 example : (decodeGeometry {} { rest := encodeSeqHeader false ++
         (encodePcGeometryData 2 ++ [1, 1, 1, 1, 1, 0, 0, 1, 254, 0, 1, 14, 18]) }).1.isSome = true ∧
     (decodeGeometry { skip := [1] } { rest := encodeSeqHeader false ++
@@ -189,21 +247,21 @@ example : (decodeGeometry {} { rest := encodeSeqHeader false ++
         (encodePcGeometryData 2 ++ [1, 1, 1, 1, 1, 0, 0, 1, 254, 0, 1, 14, 18]) } = (some r2, s2) →
       r1.geometry.numPoints = r2.geometry.numPoints :=
   ⟨by decide +kernel, by decide +kernel, fun r1 s1 r2 s2 h1 h2 =>
-    (seq_counts_independent_of_skip {} { skip := [1] } _ s1 s2 r1 r2 h1 h2).2.1⟩
+    (seq_counts_independent_of_skip {} { skip := [1] } _ s1 s2 r1 r2
+      (isSeqStream_of_header _ false _ rfl) h1 h2).2.1⟩
 
 /-! ## Part 2: Edgebreaker, one vertex fan -/
 
-/-- Under H1 the encoder's `num_attribute_seams` of a vertex is the number of (cyclically)
-    consecutive corner pairs whose attribute vertices differ. -/
+/-- The encoder's `num_attribute_seams` of a vertex is the number of (cyclically) consecutive
+    corner pairs whose attribute vertices differ. -/
 theorem enc_seams_eq_changes (f : Fan)
-    (hlen : ∀ c ∈ f.corners, c.av.length = f.onSeam.length)
-    (h1 : ∀ p ∈ f.pairs, p.1.pid ≠ p.2.pid → p.1.av ≠ p.2.av) :
+    (hlen : ∀ c ∈ f.corners, c.av.length = f.onSeam.length) :
     encSeams f = f.avChanges :=
-  encSeams_eq_avChanges f hlen h1
+  encSeams_eq_avChanges f hlen
 
 example : encSeams ⟨[⟨0, [1]⟩, ⟨0, [1]⟩, ⟨1, [2]⟩, ⟨1, [2]⟩], true, [true]⟩ = 2 ∧
     (⟨[⟨0, [1]⟩, ⟨0, [1]⟩, ⟨1, [2]⟩, ⟨1, [2]⟩], true, [true]⟩ : Fan).avChanges = 2 :=
-  ⟨enc_seams_eq_changes _ (by decide) (by decide), by decide⟩
+  ⟨enc_seams_eq_changes _ (by decide), by decide⟩
 
 /-- boundary vertex: the decoder creates one point plus one per attribute change -/
 theorem dec_points_boundary (f : Fan) (hk : f.corners ≠ []) (ho : f.closed = false)
@@ -234,21 +292,19 @@ example : decPoints ⟨[⟨0, [1, 4]⟩, ⟨1, [2, 4]⟩, ⟨2, [2, 5]⟩, ⟨2,
 example : decPoints ⟨[⟨0, [1, 4]⟩, ⟨0, [1, 4]⟩, ⟨0, [1, 4]⟩], true, [false, true]⟩ = 1 :=
   (dec_points_interior _ (by decide) rfl (by decide) (by decide)).2 (by decide)
 
-/-- **Point count of one vertex.** Hypotheses: at least one corner; every corner carries one
-    vertex per attribute corner table; H1 "deduplicated points": (cyclically, for an interior
-    vertex) consecutive corners with different point ids differ in some attribute corner table;
-    H2 "seam flags are sound" (interior vertices only): an attribute that is not constant around
-    the vertex has `IsCornerOnSeam(c₀)` set. Then the contribution of the vertex to the
-    encoder's `num_encoded_points` equals the number of points the decoder creates for it. -/
+/-- **Point count of one vertex** (encoder as written after the `fix:` commit). Hypotheses: at
+    least one corner; every corner carries one vertex per attribute corner table; H2 "seam flags
+    are sound" (interior vertices only): an attribute that is not constant around the vertex has
+    `IsCornerOnSeam(c₀)` set. No hypothesis on point ids. Then the contribution of the vertex to
+    the encoder's `num_encoded_points` equals the number of points the decoder creates for it. -/
 theorem eb_point_count_fan (f : Fan) (hk : f.corners ≠ [])
     (hlen : ∀ c ∈ f.corners, c.av.length = f.onSeam.length)
-    (h1 : ∀ p ∈ f.pairs, p.1.pid ≠ p.2.pid → p.1.av ≠ p.2.av)
     (h2 : f.closed = true → ∀ i, i < f.onSeam.length →
       (∃ a ∈ f.corners, ∃ b ∈ f.corners, a.av.getD i 0 ≠ b.av.getD i 0) →
       f.onSeam.getD i false = true) :
     encPoints f = decPoints f := by
   unfold encPoints
-  rw [encSeams_eq_avChanges f hlen h1]
+  rw [encSeams_eq_avChanges f hlen]
   cases hc : f.closed with
   | false =>
     rw [decPoints_open f hk hc hlen]
@@ -265,22 +321,27 @@ theorem eb_point_count_fan (f : Fan) (hk : f.corners ≠ [])
 /-- non-vacuity: a closed fan with two seams of one attribute (the decoder starts at c₂) -/
 example : encPoints ⟨[⟨0, [1]⟩, ⟨0, [1]⟩, ⟨1, [2]⟩, ⟨1, [2]⟩], true, [true]⟩ =
     decPoints ⟨[⟨0, [1]⟩, ⟨0, [1]⟩, ⟨1, [2]⟩, ⟨1, [2]⟩], true, [true]⟩ :=
-  eb_point_count_fan _ (by decide) (by decide) (by decide) (by decide)
+  eb_point_count_fan _ (by decide) (by decide) (by decide)
 example : encPoints ⟨[⟨0, [1]⟩, ⟨0, [1]⟩, ⟨1, [2]⟩, ⟨1, [2]⟩], true, [true]⟩ = 2 ∧
     dedupStart ⟨0, [1]⟩ [⟨0, [1]⟩, ⟨1, [2]⟩, ⟨1, [2]⟩] 0 [true] = 2 := by decide
 
 /-- non-vacuity: an open fan with a seam in the second attribute only -/
 example : encPoints ⟨[⟨0, [5, 1]⟩, ⟨1, [5, 2]⟩, ⟨1, [5, 2]⟩], false, [false, true]⟩ =
     decPoints ⟨[⟨0, [5, 1]⟩, ⟨1, [5, 2]⟩, ⟨1, [5, 2]⟩], false, [false, true]⟩ :=
-  eb_point_count_fan _ (by decide) (by decide) (by decide) (by decide)
+  eb_point_count_fan _ (by decide) (by decide) (by decide)
 example : decPoints ⟨[⟨0, [5, 1]⟩, ⟨1, [5, 2]⟩, ⟨1, [5, 2]⟩], false, [false, true]⟩ = 2 := by decide
+
+/-- non-vacuity: the input on which the encoder before the fix miscounted (two point ids with
+    identical attribute vertices) -/
+example : encPoints ⟨[⟨0, [7]⟩, ⟨0, [7]⟩, ⟨5, [7]⟩, ⟨5, [7]⟩], true, [false]⟩ =
+    decPoints ⟨[⟨0, [7]⟩, ⟨0, [7]⟩, ⟨5, [7]⟩, ⟨5, [7]⟩], true, [false]⟩ :=
+  eb_point_count_fan _ (by decide) (by decide) (by decide)
 
 /-- summed over the non-isolated vertices of a mesh: `num_encoded_points` (encoder) =
     `point_to_corner_map.size()` (decoder) -/
 theorem eb_point_count_mesh (fans : List Fan)
     (h : ∀ f ∈ fans, f.corners ≠ [] ∧
       (∀ c ∈ f.corners, c.av.length = f.onSeam.length) ∧
-      (∀ p ∈ f.pairs, p.1.pid ≠ p.2.pid → p.1.av ≠ p.2.av) ∧
       (f.closed = true → ∀ i, i < f.onSeam.length →
         (∃ a ∈ f.corners, ∃ b ∈ f.corners, a.av.getD i 0 ≠ b.av.getD i 0) →
         f.onSeam.getD i false = true)) :
@@ -288,51 +349,82 @@ theorem eb_point_count_mesh (fans : List Fan)
   induction fans with
   | nil => rfl
   | cons f fs ih =>
-    obtain ⟨a, b, c, d⟩ := h f (by simp)
-    simp only [List.map_cons, List.sum_cons, eb_point_count_fan f a b c d,
+    obtain ⟨a, b, c⟩ := h f (by simp)
+    simp only [List.map_cons, List.sum_cons, eb_point_count_fan f a b c,
       ih (fun g hg => h g (by simp [hg]))]
 
 example : ([⟨[⟨0, [1]⟩, ⟨0, [1]⟩, ⟨1, [2]⟩, ⟨1, [2]⟩], true, [true]⟩,
-      ⟨[⟨3, [1]⟩, ⟨4, [2]⟩], false, [true]⟩].map encPoints).sum =
+      ⟨[⟨3, [1]⟩, ⟨3, [2]⟩], false, [true]⟩].map encPoints).sum =
     ([⟨[⟨0, [1]⟩, ⟨0, [1]⟩, ⟨1, [2]⟩, ⟨1, [2]⟩], true, [true]⟩,
-      ⟨[⟨3, [1]⟩, ⟨4, [2]⟩], false, [true]⟩].map decPoints).sum :=
+      ⟨[⟨3, [1]⟩, ⟨3, [2]⟩], false, [true]⟩].map decPoints).sum :=
   eb_point_count_mesh _ (by decide)
 
-/-- H1 cannot be dropped — the code as written miscounts: a closed 4-corner fan whose vertex is
-    referenced through two point ids (0 and 5) with identical attribute vertices everywhere.
-    The encoder counts two seams (0→5, 5→0) and reports 2 points for the vertex; the decoder
-    creates 1. (Replayed on the real library: 4-triangle closed fan, encoder reports 6 points,
-    decoded mesh has 5.) -/
+/-! ### history: the formula before fix: commit 49d6567 -/
+
+/-- Under H1 "deduplicated points" ((cyclically, for an interior vertex) consecutive corners
+    with different point ids differ in some attribute corner table) the pre-fix formula equals
+    the repaired one — the repair changes nothing on deduplicated inputs — and hence, with H2,
+    the decoder's count. -/
+theorem eb_point_count_fan_prefix_agrees (f : Fan) (hk : f.corners ≠ [])
+    (hlen : ∀ c ∈ f.corners, c.av.length = f.onSeam.length)
+    (h1 : ∀ p ∈ f.pairs, p.1.pid ≠ p.2.pid → p.1.av ≠ p.2.av)
+    (h2 : f.closed = true → ∀ i, i < f.onSeam.length →
+      (∃ a ∈ f.corners, ∃ b ∈ f.corners, a.av.getD i 0 ≠ b.av.getD i 0) →
+      f.onSeam.getD i false = true) :
+    encPointsPreFix f = encPoints f ∧ encPointsPreFix f = decPoints f := by
+  have e := encPointsPreFix_eq f hlen h1
+  exact ⟨e, e.trans (eb_point_count_fan f hk hlen h2)⟩
+
+/-- non-vacuity: point ids change exactly where the attribute vertices change -/
+example : encPointsPreFix ⟨[⟨0, [1]⟩, ⟨0, [1]⟩, ⟨1, [2]⟩, ⟨1, [2]⟩], true, [true]⟩ =
+      encPoints ⟨[⟨0, [1]⟩, ⟨0, [1]⟩, ⟨1, [2]⟩, ⟨1, [2]⟩], true, [true]⟩ ∧
+    encPointsPreFix ⟨[⟨0, [1]⟩, ⟨0, [1]⟩, ⟨1, [2]⟩, ⟨1, [2]⟩], true, [true]⟩ =
+      decPoints ⟨[⟨0, [1]⟩, ⟨0, [1]⟩, ⟨1, [2]⟩, ⟨1, [2]⟩], true, [true]⟩ :=
+  eb_point_count_fan_prefix_agrees _ (by decide) (by decide) (by decide) (by decide)
+/-- non-vacuity: same point id, different attribute vertices (the old else-branch) -/
+example : encPointsPreFix ⟨[⟨3, [5, 1]⟩, ⟨3, [5, 2]⟩, ⟨4, [6, 2]⟩], false, [false, true]⟩ =
+      decPoints ⟨[⟨3, [5, 1]⟩, ⟨3, [5, 2]⟩, ⟨4, [6, 2]⟩], false, [false, true]⟩ :=
+  (eb_point_count_fan_prefix_agrees _ (by decide) (by decide) (by decide) (by decide)).2
+
+/-- Without H1 the old code miscounted: a closed 4-corner fan whose vertex is referenced
+    through two point ids (0 and 5) with identical attribute vertices everywhere. The old
+    encoder counted two seams (0→5, 5→0) and reported 2 points for the vertex; the repaired
+    encoder reports 1 and the decoder creates 1. (Replayed on the real library before the fix:
+    4-triangle closed fan, encoder reported 6 points, decoded mesh has 5.) -/
 theorem eb_point_count_fan_nondedup_witness :
-    encPoints ⟨[⟨0, [7]⟩, ⟨0, [7]⟩, ⟨5, [7]⟩, ⟨5, [7]⟩], true, [false]⟩ = 2 ∧
+    encPointsPreFix ⟨[⟨0, [7]⟩, ⟨0, [7]⟩, ⟨5, [7]⟩, ⟨5, [7]⟩], true, [false]⟩ = 2 ∧
+    encPoints ⟨[⟨0, [7]⟩, ⟨0, [7]⟩, ⟨5, [7]⟩, ⟨5, [7]⟩], true, [false]⟩ = 1 ∧
     decPoints ⟨[⟨0, [7]⟩, ⟨0, [7]⟩, ⟨5, [7]⟩, ⟨5, [7]⟩], true, [false]⟩ = 1 := by decide
 
-/-- the same on a boundary vertex: encoder 2 points, decoder 1 -/
+/-- the same on a boundary vertex: old encoder 2 points, repaired encoder and decoder 1 -/
 theorem eb_point_count_fan_nondedup_boundary_witness :
-    encPoints ⟨[⟨0, [7]⟩, ⟨5, [7]⟩], false, [false]⟩ = 2 ∧
+    encPointsPreFix ⟨[⟨0, [7]⟩, ⟨5, [7]⟩], false, [false]⟩ = 2 ∧
+    encPoints ⟨[⟨0, [7]⟩, ⟨5, [7]⟩], false, [false]⟩ = 1 ∧
     decPoints ⟨[⟨0, [7]⟩, ⟨5, [7]⟩], false, [false]⟩ = 1 := by decide
 
-/-- … hence the statement without H1 is FALSE of the code (all other hypotheses hold at the
-    witness: its seam flags are sound since every attribute is constant). -/
-theorem eb_point_count_fan_false :
+/-- … hence the statement for the pre-fix formula without H1 was FALSE of the code (all other
+    hypotheses hold at the witness: its seam flags are sound since every attribute is
+    constant). -/
+theorem eb_point_count_fan_prefix_false :
     ¬ ∀ f : Fan, f.corners ≠ [] → (∀ c ∈ f.corners, c.av.length = f.onSeam.length) →
       (f.closed = true → ∀ i, i < f.onSeam.length →
         (∃ a ∈ f.corners, ∃ b ∈ f.corners, a.av.getD i 0 ≠ b.av.getD i 0) →
         f.onSeam.getD i false = true) →
-      encPoints f = decPoints f := by
+      encPointsPreFix f = decPoints f := by
   intro h
   have := h ⟨[⟨0, [7]⟩, ⟨0, [7]⟩, ⟨5, [7]⟩, ⟨5, [7]⟩], true, [false]⟩ (by decide) (by decide)
     (by decide)
   revert this
   decide
 
-/-- H2 cannot be dropped in the abstract model: with an unsound seam flag the decoder starts
-    at c₀ in the middle of a sector and creates 3 points where the encoder reports 2 (H1 holds
-    here). In the real decoder the flags are computed from the decoded seams. -/
+/-- H2 cannot be dropped in the abstract model (also for the repaired encoder): with an unsound
+    seam flag the decoder starts at c₀ in the middle of a sector and creates 3 points where the
+    encoder reports 2. In the real decoder the flags are computed from the decoded seams. -/
 theorem eb_point_count_fan_unsound_flag_witness :
     encPoints ⟨[⟨0, [1]⟩, ⟨1, [2]⟩, ⟨0, [1]⟩], true, [false]⟩ = 2 ∧
     decPoints ⟨[⟨0, [1]⟩, ⟨1, [2]⟩, ⟨0, [1]⟩], true, [false]⟩ = 3 ∧
-    (∀ p ∈ (⟨[⟨0, [1]⟩, ⟨1, [2]⟩, ⟨0, [1]⟩], true, [false]⟩ : Fan).pairs,
-      p.1.pid ≠ p.2.pid → p.1.av ≠ p.2.av) := by decide
+    (∀ c ∈ (⟨[⟨0, [1]⟩, ⟨1, [2]⟩, ⟨0, [1]⟩], true, [false]⟩ : Fan).corners,
+      c.av.length = (⟨[⟨0, [1]⟩, ⟨1, [2]⟩, ⟨0, [1]⟩], true, [false]⟩ : Fan).onSeam.length) := by
+  decide
 
 end Draco.C09
